@@ -14,6 +14,7 @@ import (
 	"time"
 
 	"github.com/nsqio/nsq/internal/protocol"
+	"github.com/nsqio/nsq/internal/verif"
 	"github.com/nsqio/nsq/internal/version"
 )
 
@@ -81,6 +82,7 @@ func (p *LookupProtocolV1) IOLoop(c protocol.Client) error {
 					client, r.Category, r.Key, r.SubKey)
 			}
 		}
+		verif.Ev("PeerGone", "id", client.peerInfo.id, "n", len(registrations))
 	}
 
 	return err
@@ -165,6 +167,7 @@ func (p *LookupProtocolV1) UNREGISTER(client *ClientV1, reader *bufio.Reader, pa
 			p.nsqlookupd.logf(LOG_INFO, "DB: client(%s) UNREGISTER category:%s key:%s subkey:%s",
 				client, "channel", topic, channel)
 		}
+		verif.Yield("lookupd.unregister.channel.afterRemoveProducer", client.peerInfo.id)
 		// for ephemeral channels, remove the channel as well if it has no producers
 		if left == 0 && strings.HasSuffix(channel, "#ephemeral") {
 			p.nsqlookupd.DB.RemoveRegistrationIfEmpty(key)
@@ -189,6 +192,7 @@ func (p *LookupProtocolV1) UNREGISTER(client *ClientV1, reader *bufio.Reader, pa
 			p.nsqlookupd.logf(LOG_INFO, "DB: client(%s) UNREGISTER category:%s key:%s subkey:%s",
 				client, "topic", topic, "")
 		}
+		verif.Yield("lookupd.unregister.topic.afterRemoveProducer", client.peerInfo.id)
 		if left == 0 && strings.HasSuffix(topic, "#ephemeral") {
 			p.nsqlookupd.DB.RemoveRegistrationIfEmpty(key)
 		}
@@ -236,6 +240,7 @@ func (p *LookupProtocolV1) IDENTIFY(client *ClientV1, reader *bufio.Reader, para
 		client, peerInfo.BroadcastAddress, peerInfo.TCPPort, peerInfo.HTTPPort, peerInfo.Version)
 
 	client.peerInfo = &peerInfo
+	verif.Ev("PeerIdentify", "id", peerInfo.id, "hostname", peerInfo.Hostname, "ts", peerInfo.lastUpdate)
 	if p.nsqlookupd.DB.AddProducer(Registration{"client", "", ""}, &Producer{peerInfo: client.peerInfo}) {
 		p.nsqlookupd.logf(LOG_INFO, "DB: client(%s) REGISTER category:%s key:%s subkey:%s", client, "client", "", "")
 	}
@@ -268,6 +273,7 @@ func (p *LookupProtocolV1) PING(client *ClientV1, params []string) ([]byte, erro
 		p.nsqlookupd.logf(LOG_INFO, "CLIENT(%s): pinged (last ping %s)", client.peerInfo.id,
 			now.Sub(cur))
 		atomic.StoreInt64(&client.peerInfo.lastUpdate, now.UnixNano())
+		verif.Ev("PeerPing", "id", client.peerInfo.id, "ts", now.UnixNano())
 	}
 	return []byte("OK"), nil
 }
